@@ -17,7 +17,7 @@ from lerax.algorithm import A2C, PPO
 from lerax.algorithm.on_policy import AbstractOnPolicyStepState
 from lerax.callback import AbstractCallbackStepState, AbstractStepCallback
 
-from harness.stubs import (KeyTree, TabEnv, TabPolicy, TabPState, build_stack, canon_state, obs_list, path_lit, ptab_lit,
+from harness.stubs import (KeyTree, TabEnv, TabPolicy, TabPState, build_stack, canon_state, chain_tab, obs_list, path_lit, ptab_lit,
                            random_ptab, random_stack, random_tab, rawtbl_lit, rebuild_state, subtree, tab_lit, wd_lit)
 
 
@@ -55,11 +55,17 @@ _ALLOW = ["Identity", "TimeLimit", "TimeLimit", "ClipReward", "TransformReward",
 
 def gen_rollout_case(ck, rng, idx, *, force_vec=None, det=None, Tmax=10):
     det = bool(rng.random() < 0.4) if det is None else det
-    spec = random_tab(rng, box_obs=False, noise=not det, trunc_rate=0.08, term_rate=0.15)
-    if det:
-        spec["I"] = spec["I"][:1]
-        spec["P"] = [[[x[0]] for x in row] for row in spec["P"]]
-    stack, asp, osp = random_stack(rng, spec, depth=int(rng.integers(0, 3)), allow=_ALLOW)
+    if det and rng.random() < 0.5:
+        # key-free chain MDP under a TimeLimit hitting the terminal step: pure truncation / coincidence / pure termination
+        K = int(rng.integers(2, 5))
+        spec = chain_tab(rng, K, box_action=bool(rng.random() < 0.3))
+        stack, asp, osp = [["TimeLimit", int(K + rng.integers(-1, 2))]], list(spec["asp"]), list(spec["osp"])
+    else:
+        spec = random_tab(rng, box_obs=False, noise=not det, trunc_rate=0.08, term_rate=0.15)
+        if det:
+            spec["I"] = spec["I"][:1]
+            spec["P"] = [[[x[0]] for x in row] for row in spec["P"]]
+        stack, asp, osp = random_stack(rng, spec, depth=int(rng.integers(0, 3)), allow=_ALLOW)
     nobs = int(spec["osp"][1])
     pspec = random_ptab(rng, spec, asp, nobs, det=det)
     env = build_stack(TabEnv(spec), stack)
